@@ -8,6 +8,7 @@ import (
 	"unicode/utf8"
 
 	"github.com/cockroachdb/redact"
+	"github.com/cockroachdb/redact/interfaces"
 )
 
 var c10alpha = []byte{0xe2, 0x80, 0xb9, 0xba, 'a', ' ', '\n', '?', 0xc3}
@@ -211,6 +212,7 @@ func c10check(w *Worker, b []byte, threeWay bool) {
 			viol("buffer", "unsafe write left text outside envelopes: "+q(one))
 		}
 		c1 := canon(one)
+		viaBuilder := len(b) > 8 || (len(b) > 1 && hashStr(s)%6 == 0) // all longer strings, a sixth of the enumerated ones
 		// split points: every position (short strings) or a stride of them plus the last 8 and, up to 16 times,
 		// the 3 positions in and after each E2 byte (long strings)
 		var cuts []int
@@ -237,6 +239,13 @@ func c10check(w *Worker, b []byte, threeWay bool) {
 			w.Eval(1)
 			if canon(two) != c1 {
 				viol("split", "kind="+itoa(kind)+" split at "+itoa(i)+": "+q(two)+" vs one write "+q(one))
+			}
+			// the same through a StringBuilder, which selects the mode again before every call
+			if viaBuilder {
+				w.Eval(1)
+				if sb := builderWrite(kind, [][]byte{b[:i], b[i:]}, i); canon(sb) != c1 {
+					viol("split", "StringBuilder, kind="+itoa(kind)+" split at "+itoa(i)+": "+q(sb)+" vs one ManualBuffer write "+q(one))
+				}
 			}
 			if threeWay {
 				for j := i; j <= len(b); j++ {
@@ -267,6 +276,27 @@ func manualWrite(kind int, chunks [][]byte, salt int) string {
 		}
 	}
 	return string(mb.RedactableString())
+}
+
+// builderWrite writes the chunks through the SafeWriter methods of a StringBuilder (kind 0: safe, kind 1: unsafe),
+// alternating the string- and bytes-taking forms.
+func builderWrite(kind int, chunks [][]byte, salt int) string {
+	var sb redact.StringBuilder
+	for n, c := range chunks {
+		switch {
+		case kind == 0 && (n+salt)%2 == 0:
+			sb.SafeString(interfaces.SafeString(c))
+		case kind == 0:
+			sb.SafeBytes(interfaces.SafeBytes(c))
+		case (n+salt)%3 == 0:
+			sb.UnsafeString(string(c))
+		case (n+salt)%3 == 1:
+			sb.UnsafeBytes(c)
+		default:
+			sb.Write(c)
+		}
+	}
+	return string(sb.RedactableString())
 }
 
 func runC10(c *Ctx) {
